@@ -367,7 +367,7 @@ def run_harness(h, keep=False, extra_defines=()):
             if h.enforce and ("Wrapping '%s'" % mangled(h.enforce)) not in out + err:
                 raise Undecided('dfcc did not wrap %s' % h.enforce)
             res['dfcc_log'] = (out + err)[-4000:]
-        cmd = ['cbmc', b] + h.flags + (['--unwind', str(h.unwind)] if h.unwind else []) + ['--unwinding-assertions', '--trace', '--json-ui']
+        cmd = ['cbmc', b] + h.flags + (['--unwind', str(h.unwind)] if h.unwind else []) + ([] if h.meta.get('unwinding_assertions') is False else ['--unwinding-assertions']) + ['--trace', '--json-ui']
         res['cmds'].append(' '.join(cmd))
         outp = os.path.join(scratch, 'cbmc.json')
         with open(outp, 'w') as fo:
